@@ -29,6 +29,9 @@ type Config struct {
 	// MaskSites are switched off on top of SitesOff by campaign (B) of a check
 	// (DESIGN.md section 8, site masking).
 	MaskSites []string `json:"maskSites,omitempty"`
+	// TxIDBase, when set, seeds every ledger with one earlier transaction carrying that id, as
+	// a ledger with a long history would have: ids beyond 2^24 / 2^53 reach the decoders.
+	TxIDBase string `json:"txIdBase,omitempty"`
 }
 
 type GenPlan struct {
